@@ -7,6 +7,10 @@ import Solvor.Sat.Theorems
 #print axioms Solvor.Sat.resolve_sound
 #print axioms Solvor.Sat.learn_chain_sound
 #print axioms Solvor.Sat.entailsB_iff
+#print axioms Solvor.Sat.upRefutes_sound
+#print axioms Solvor.Sat.cdcl_infeasible_sound_partial
+#print axioms Solvor.Sat.cdcl_verdicts_partial
+#print axioms Solvor.Sat.cdcl_returns_models_partial
 #print axioms Solvor.Sat.luby_pos
 #print axioms Solvor.Sat.luby_pow2
 #print axioms Solvor.Sat.luby_fuel
